@@ -1,0 +1,40 @@
+//go:build verif
+
+package main
+
+// Contracts for the command-line adapter (property C19). Same conventions as
+// /repo/verif_contracts.go; read by /verif/bin/govc, never compiled into the
+// command. Standard output and standard error are ghost traces
+// (\stdoutCount, \stdoutText, \stderrCount), the exit status is \exitCode.
+// \ret(f, i) / \arg(f, i) denote the i-th result / argument of the most
+// recent call of f.
+
+//@ func main.errMsg
+//@   props C05,C19
+//@   assigns \nothing
+//@   ensures {C19} [status-one] result == 1
+//@   ensures {C19} [nothing-on-standard-output] \stdoutCount == old(\stdoutCount) && \stdoutText == old(\stdoutText)
+//@   ensures {C19} [diagnostic-on-standard-error] \stderrCount > old(\stderrCount)
+//@   ensures {C19} [does-not-exit] (\exited <==> old(\exited)) && \exitCode == old(\exitCode)
+
+//@ func main.run
+//@   props C05,C19
+//@   assigns \nothing
+//@   ensures {C19} [status-is-zero-or-one] result == 0 || result == 1
+//@   ensures {C19} [does-not-exit-itself] (\exited <==> old(\exited)) && \exitCode == old(\exitCode)
+//@   ensures {C19} [failure-prints-nothing-on-standard-output] result != 0 ==> \stdoutCount == old(\stdoutCount) && \stdoutText == old(\stdoutText)
+//@   ensures {C19} [failure-is-diagnosed-on-standard-error] result != 0 ==> \stderrCount > old(\stderrCount)
+//@   ensures {C19} @internal [success-prints-exactly-the-serialised-result-once] result == 0 && !deref(astOnly) ==> \stdoutCount == old(\stdoutCount) + 1 && \stdoutText == old(\stdoutText) + (strOfBytes(marshalOf(\ret(Search, 0))) + "\n")
+//@   ensures {C19} @internal [the-result-is-what-search-returns-for-the-expression-and-the-decoded-input] result == 0 && !deref(astOnly) ==> isNil(\ret(Search, 1)) && \arg(Search, 0) == expression && jsonValid(inputData) && same(\arg(Search, 1), jsonDecodeOf(inputData))
+//@   ensures {C19} @internal [input-is-the-named-file-or-standard-input] result == 0 && !deref(astOnly) ==> same(inputData, deref(inputFile) != "" ? fileBytes(deref(inputFile)) : stdinBytes())
+//@   ensures {C19} @internal [the-expression-is-the-single-argument] result == 0 ==> len(args) == 1 && expression == args[0]
+//@   ensures {C19} @internal [an-invalid-expression-fails] len(args) == 1 && !isNil(\ret(Parse, 1)) ==> result == 1
+//@   ensures {C19} @internal [unreadable-input-fails] len(args) == 1 && isNil(\ret(Parse, 1)) && !deref(astOnly) && !(deref(inputFile) != "" ? fileOK(deref(inputFile)) : stdinOK()) ==> result == 1
+//@   ensures {C19} @internal [invalid-input-json-fails] len(args) == 1 && isNil(\ret(Parse, 1)) && !deref(astOnly) && (deref(inputFile) != "" ? fileOK(deref(inputFile)) : stdinOK()) && !jsonValid(inputData) ==> result == 1
+//@   ensures {C19} @internal [an-evaluation-error-fails] len(args) == 1 && isNil(\ret(Parse, 1)) && !deref(astOnly) && (deref(inputFile) != "" ? fileOK(deref(inputFile)) : stdinOK()) && jsonValid(inputData) && !isNil(\ret(Search, 1)) ==> result == 1
+//@   ensures {C19} @internal [valid-expression-and-valid-input-succeed] len(args) == 1 && isNil(\ret(Parse, 1)) && !deref(astOnly) && (deref(inputFile) != "" ? fileOK(deref(inputFile)) : stdinOK()) && jsonValid(inputData) && isNil(\ret(Search, 1)) ==> result == 0
+
+//@ func main.main
+//@   props C05,C19
+//@   assigns \nothing
+//@   ensures {C19} [exits-with-the-status-of-run] \exited && (!old(\exited) ==> \exitCode == \ret(run, 0))
